@@ -95,6 +95,7 @@ func parseContractFile(path string, pkgPath string, pc *PkgContracts) error {
 	lines := strings.Split(string(data), "\n")
 	var cur *FuncContract
 	counts := map[string]int{}
+	defines := map[string]string{}
 	for i := 0; i < len(lines); i++ {
 		ln := strings.TrimSpace(lines[i])
 		if !strings.HasPrefix(ln, "//@") {
@@ -120,8 +121,18 @@ func parseContractFile(path string, pkgPath string, pc *PkgContracts) error {
 			}
 			break
 		}
+		// textual abbreviations: "define NAME text" then $NAME in later lines of the same file
+		for name, text := range defines {
+			body = strings.ReplaceAll(body, "$"+name, text)
+		}
 		word, rest := splitWord(body)
 		switch word {
+		case "define":
+			name, text := splitWord(rest)
+			if name == "" {
+				return fmt.Errorf("%s:%d: define needs a name", path, i+1)
+			}
+			defines[name] = strings.TrimSpace(text)
 		case "ghost", "lemma":
 			// multi-line Go source until braces balance
 			src := rest
